@@ -385,6 +385,15 @@ func Root() string {
 	return "/verif"
 }
 
+// OutRoot is where evidence and replay files are written (VERIF_OUT overrides, used
+// by the selftest so that mutant runs do not overwrite real evidence).
+func OutRoot() string {
+	if r := os.Getenv("VERIF_OUT"); r != "" {
+		return r
+	}
+	return Root()
+}
+
 func sigFile(sig string) string {
 	h := fnv.New64a()
 	h.Write([]byte(sig))
@@ -505,7 +514,7 @@ func Main(c *Check, args []string) int {
 			continue
 		}
 		nviol++
-		dir := filepath.Join(root, "replays", c.ID)
+		dir := filepath.Join(OutRoot(), "replays", c.ID)
 		os.MkdirAll(dir, 0o755)
 		p := filepath.Join(dir, sigFile(f.Sig))
 		b, _ := json.MarshalIndent(f, "", " ")
@@ -514,7 +523,7 @@ func Main(c *Check, args []string) int {
 		fmt.Printf("VIOLATION property=%s replay=%s\n", c.ID, p)
 		exit = 1
 	}
-	writeEvidence(c, tier, seed, res, knownHit, nviol, time.Since(start).Seconds(), root)
+	writeEvidence(c, tier, seed, res, knownHit, nviol, time.Since(start).Seconds(), OutRoot())
 	return exit
 }
 
